@@ -54,6 +54,11 @@ impl Rng {
 
     /// Uniform in lo..=hi.
     pub fn range(&mut self, lo: usize, hi: usize) -> usize {
+        if hi <= lo {
+            // still draw, so that the stream does not depend on the bounds
+            let _ = self.next_u64();
+            return lo;
+        }
         lo + self.below(hi - lo + 1)
     }
 
